@@ -100,6 +100,9 @@ func (in *Interp) jsonUnmarshal(data Value, dst Value) Value {
 	}
 	dt := in.bytesToStr(data)
 	if e, ok := in.decodeBlob("json", dt); ok {
+		if e.T == nil {
+			return Iface{} // JSON null: the destination is left unchanged
+		}
 		if types.Identical(e.T, pt.Elem()) {
 			*p = deepCopy(e.V)
 			return Iface{}
@@ -108,6 +111,26 @@ func (in *Interp) jsonUnmarshal(data Value, dst Value) Value {
 			if sp, ok := e.V.(*Value); ok && sp != nil {
 				*p = deepCopy(*sp)
 				return Iface{}
+			}
+		}
+		// decoding into interface{}: the dynamic value itself
+		if it, ok := under(pt.Elem()).(*types.Interface); ok && it.NumMethods() == 0 {
+			*p = Iface{T: e.T, V: deepCopy(e.V)}
+			return Iface{}
+		}
+		// same underlying type (e.g. map[string]interface{} decoded into document.Document)
+		if e.T != nil && types.Identical(under(e.T), under(pt.Elem())) {
+			*p = deepCopy(e.V)
+			return Iface{}
+		}
+		// a JSON value of one basic kind never decodes into a different basic kind
+		if e.T != nil {
+			_, b1 := under(e.T).(*types.Basic)
+			_, b2 := under(pt.Elem()).(*types.Basic)
+			_, m1 := under(e.T).(*types.Map)
+			_, s1 := under(e.T).(*types.Slice)
+			if (b1 && b2) || ((m1 || s1) && b2) {
+				return in.NewError(in.tb.Str("json: cannot unmarshal value into Go value of different kind"))
 			}
 		}
 	}
@@ -215,6 +238,94 @@ func init() {
 		}
 		e.Stubs["time.Since"] = func(in *Interp, fn *ssa.Function, args []Value) (Value, bool) {
 			return in.tb.BV(64, 0), true
+		}
+	})
+}
+
+// ---- third-party JSON patch engine and net/url ---------------------------------------------------
+func init() {
+	extraStubs = append(extraStubs, func(e *Engine) {
+		jp := "github.com/evanphx/json-patch."
+		// DecodePatch: a blob produced by the Marshal stub is decoded structurally into
+		// []map[string]*json.RawMessage (each member an opaque blob tagged with the member's value);
+		// anything else is typed havoc or an error.
+		e.Stubs[jp+"DecodePatch"] = func(in *Interp, fn *ssa.Function, args []Value) (Value, bool) {
+			pt := fn.Signature.Results().At(0).Type()
+			opT := under(pt).(*types.Slice).Elem()
+			mapT := under(opT).(*types.Map)
+			rawT := mapT.Elem().(*types.Pointer).Elem()
+			dt := in.bytesToStr(args[0])
+			ent, ok := in.decodeBlob("json", dt)
+			if !ok {
+				if in.Choose(2) == 1 {
+					return Tuple{[]Value(nil), in.NewError(in.tb.Str("invalid JSON patch"))}, true
+				}
+				return Tuple{in.havoc(in.uniqueName("jsonpatch"), pt, 0), Iface{}}, true
+			}
+			list, isList := in.force(ent.V).([]Value)
+			if !isList {
+				return Tuple{[]Value(nil), in.NewError(in.tb.Str("json: cannot unmarshal into patch"))}, true
+			}
+			var out []Value
+			for _, el := range list {
+				ei, _ := in.force(el).(Iface)
+				m, isMap := in.force(ei.V).(*Map)
+				if ei.T == nil || !isMap {
+					return Tuple{[]Value(nil), in.NewError(in.tb.Str("json: cannot unmarshal into patch operation"))}, true
+				}
+				op := &Map{T: mapT}
+				for _, me := range m.entries {
+					mv, _ := in.force(me.v).(Iface)
+					_ = rawT
+					if mv.T == nil {
+						// JSON null decodes to a nil *json.RawMessage
+						op.entries = append(op.entries, &mapEntry{me.k, (*Value)(nil)})
+						continue
+					}
+					p := new(Value)
+					*p = in.encodeBlob("json", mv.T, mv.V)
+					op.entries = append(op.entries, &mapEntry{me.k, p})
+				}
+				out = append(out, op)
+			}
+			return Tuple{out, Iface{}}, true
+		}
+		// Patch.Apply: the third-party engine is outside the claim: result is an opaque document or an error
+		e.Stubs["("+jp+"Patch).Apply"] = func(in *Interp, fn *ssa.Function, args []Value) (Value, bool) {
+			if in.Choose(2) == 1 {
+				return Tuple{[]Value(nil), in.NewError(in.tb.Str("json patch failed"))}, true
+			}
+			return Tuple{SymBytes{in.Nondet("jsonpatch.result", SortStr, "bytes")}, Iface{}}, true
+		}
+		e.Stubs["net/url.ParseRequestURI"] = func(in *Interp, fn *ssa.Function, args []Value) (Value, bool) {
+			s := args[0].(*Term)
+			ok := in.noteUF(in.tb.UF("url.validRequestURI", SortBool, s))
+			if !in.Branch(ok) {
+				return Tuple{(*Value)(nil), in.NewError(in.tb.Str("invalid URI for request"))}, true
+			}
+			p := new(Value)
+			*p = in.zero(fn.Signature.Results().At(0).Type().(*types.Pointer).Elem())
+			in.memo[fmt.Sprintf("url:%p", p)] = s
+			return Tuple{p, Iface{}}, true
+		}
+		e.Stubs["net/url.Parse"] = func(in *Interp, fn *ssa.Function, args []Value) (Value, bool) {
+			s := args[0].(*Term)
+			ok := in.noteUF(in.tb.UF("url.parses", SortBool, s))
+			if !in.Branch(ok) {
+				return Tuple{(*Value)(nil), in.NewError(in.tb.Str("parse error"))}, true
+			}
+			p := new(Value)
+			*p = in.zero(fn.Signature.Results().At(0).Type().(*types.Pointer).Elem())
+			in.memo[fmt.Sprintf("url:%p", p)] = s
+			return Tuple{p, Iface{}}, true
+		}
+		e.Stubs["(*net/url.URL).String"] = func(in *Interp, fn *ssa.Function, args []Value) (Value, bool) {
+			p := args[0].(*Value)
+			s, ok := in.memo[fmt.Sprintf("url:%p", p)].(*Term)
+			if !ok {
+				return in.tb.Fresh("url.string", SortStr), true
+			}
+			return in.noteUF(in.tb.UF("url.normalised", SortStr, s)), true
 		}
 	})
 }
